@@ -8,8 +8,8 @@ import CifModel.Gen.ErrCodes
   names denote the same item iff their normalised forms are equal.  Packets of the request are keyed by normalised name.
 
   This file gives the loop- and container-level operations that the property statement C04 singles out:
-  add_packet, set_value, remove_item, set_category.  (`specStep` for whole histories — handles as paths into the tree — is
-  not written; see Props/C04.lean `C04_refines_full`.)
+  add_packet, set_value, remove_item, set_category, and (group gX, for the composition with the parser) create_loop and prune.
+  (`specStep` for whole histories, with object identities: Spec/StoreSpec.lean.)
 -/
 namespace CifModel
 open Gen.ErrCodes
@@ -90,6 +90,31 @@ def Container.specCreateFrame (c : Container) (key orig : Str) (valid : Bool) : 
   if !valid then .error CIF_INVALID_FRAMECODE
   else if c.frames.any (fun f => norm f.code == key) then .error CIF_DUP_FRAMECODE
   else .ok (.mk c.code (c.frames ++ [.mk orig [] []]) c.loops)
+
+/-- the container has an item of that (normalised) name, in whichever loop -/
+def Container.specHasItem (c : Container) (key : Str) : Bool := c.loops.any (fun l => l.specHasItem norm key)
+
+/-- no two of the (normalised) names are equal -/
+def specKeysDistinct : List Str → Bool
+  | [] => true
+  | k :: ks => !ks.contains k && specKeysDistinct ks
+
+/-- cif_container_create_loop: "There must be at least one item name, and all item names given must initially be absent from the
+    container.  All item names must be valid …  the empty category name is reserved for the loop containing all the scalar data in
+    the container …  New loops initially contain zero packets": a new loop with the given category and names (as spelled) and no
+    packet, last among the container's loops.  `valid` = cif_is_valid_name's verdict.  (A name given twice is "already present"
+    when its second occurrence is added: CIF_DUP_ITEMNAME.) -/
+def Container.specCreateLoop (c : Container) (cat : Option Str) (names : List Str) (valid : Str → Bool) : Except Code Container :=
+  if names.isEmpty then .error CIF_NULL_LOOP
+  else if names.any (fun n => !valid n) then .error CIF_INVALID_ITEMNAME
+  else if cat == some [] && c.loops.any Loop.specIsScalar then .error CIF_RESERVED_LOOP
+  else if names.any (fun n => c.specHasItem norm (norm n)) || !specKeysDistinct (names.map norm) then .error CIF_DUP_ITEMNAME
+  else .ok (.mk c.code c.frames (c.loops ++ [{ category := cat, names := names, packets := [] }]))
+
+/-- cif_container_prune: "removing all empty loops belonging directly to the specified container" — the loops without a packet go,
+    the container's save frames are not visited -/
+def Container.specPrune : Container → Container
+  | .mk code fs ls => .mk code fs (ls.filter (fun l => !l.packets.isEmpty))
 
 /-- cif_get_all_blocks: the codes, in their original spelling -/
 def specBlockCodes (cif : Cif) : List Str := cif.map (·.code)
